@@ -416,3 +416,9 @@ def run(ck):
           "offsets are measured from data_.data()" if not pb else
           "pbase() is used as an origin at line %s, but the put area is re-seated at the old end on every growth and at the write position on every move: "
           "after a move the computed offset is wrong and later bytes overwrite earlier ones" % pb[0].get("l"))
+
+    # ---------------- facts shared with C02 ----------------
+    ck.borrow("C02", ["C02-R2"], "C05-R6",
+              "the status line is `HTTP-version SP status-code SP reason-phrase CRLF`: the code is written in decimal and the space after it "
+              "is written unconditionally (an empty reason phrase still needs it)",
+              key_pred=lambda k: k.startswith("server-writes"), min_instances=2)
